@@ -402,7 +402,8 @@ def into_data(val: Convertible, ty: t.Optional[IntoConverter] = None, *,
     """
     Convert `val` of type `ty` into a data interchange format.
     """
-    if ty is None:
+    by_runtime_type = ty is None
+    if by_runtime_type:
         if isinstance(val, _ScalarType) and custom is None:
             # we can bypass the converter for scalar types
             return val
@@ -410,7 +411,11 @@ def into_data(val: Convertible, ty: t.Optional[IntoConverter] = None, *,
 
     try:
         conv = make_converter(ty, ConverterHandlers.make(custom))
-        assert not hasattr(conv.into_data, '_original')  # hack to not use the default into_data implementation here
+        if hasattr(conv.into_data, '_original'):
+            # `conv` has no serialized form of its own (Any, None, Literal, ...): go by the runtime type of `val`.
+            # (but don't recurse into the default into_data implementation from here)
+            assert not by_runtime_type
+            return into_data(val, custom=custom)
     except (TypeError, AssertionError):
         raise TypeError(f"Can't convert type '{type(val)}' into data.") from None
 
